@@ -7,14 +7,15 @@ import "time"
 // canonical first alternative costs 1; all executions with at most Bound
 // deviations are run to completion.
 type Explore struct {
-	Bound     int
-	BaseOrder int
-	Prune     bool      // happens-before state caching (see Config.Seen)
-	Count     bool      // count distinct HB states even without pruning
-	MaxExecs  int       // 0 = unlimited
-	Deadline  time.Time // zero = none
-	Shard, NShards int  // this process explores the level-1 subtrees with index%NShards == Shard (0/0 = all)
-	Horizon   int
+	Bound          int
+	BaseOrder      int
+	SelectOrder    int
+	Prune          bool      // happens-before state caching (see Config.Seen)
+	Count          bool      // count distinct HB states even without pruning
+	MaxExecs       int       // 0 = unlimited
+	Deadline       time.Time // zero = none
+	Shard, NShards int       // this process explores the level-1 subtrees with index%NShards == Shard (0/0 = all)
+	Horizon        int
 
 	// results
 	Execs       int
@@ -53,7 +54,7 @@ func (e *Explore) Run(exec func(Config) *Execution, visit func(*Execution) bool)
 		}
 		nd := stack[len(stack)-1]
 		stack = stack[:len(stack)-1]
-		x := exec(Config{Prefix: nd.prefix, Seen: seen, Bound: e.Bound, BaseOrder: e.BaseOrder, Fp: e.Count, Horizon: e.Horizon, FastBase: e.Bound == 0 && !e.Count && !e.Prune})
+		x := exec(Config{Prefix: nd.prefix, Seen: seen, Bound: e.Bound, BaseOrder: e.BaseOrder, SelectOrder: e.SelectOrder, Fp: e.Count, Horizon: e.Horizon, FastBase: e.Bound == 0 && !e.Count && !e.Prune})
 		e.Execs++
 		e.Points += len(x.Choices)
 		e.Transitions += x.Steps
